@@ -182,6 +182,7 @@ func applyEdits(p *idlm.Program, r *core.Rand, n int) []c20Edit {
 			s.Fields = cloneFieldList(s.Fields)
 			pos := r.Intn(len(s.Fields) + 1)
 			s.Fields = append(s.Fields[:pos], append([]*idlm.Field{nf}, s.Fields[pos:]...)...)
+			touched["edited/"+f.Path+"/"+s.Name] = true
 			out = append(out, c20Edit{"add required field " + s.Name + "." + nf.Name, []diag{{f.Path, "required-field-added", nf.Name + "," + s.Name}}})
 		case op == 3 && len(structs) > 0: // optional -> required
 			s := structs[r.Intn(len(structs))]
@@ -206,6 +207,7 @@ func applyEdits(p *idlm.Program, r *core.Rand, n int) []c20Edit {
 			nf.Req = idlm.ReqRequired
 			replaceField(s, fl, &nf)
 			touched[key] = true
+			touched["edited/"+f.Path+"/"+s.Name] = true
 			out = append(out, c20Edit{"optional to required " + s.Name + "." + fl.Name, []diag{{f.Path, "optional-to-required", fl.Name + "," + s.Name}}})
 		case op == 4 && len(structs) > 0: // change a field's type name
 			s := structs[r.Intn(len(structs))]
@@ -231,6 +233,7 @@ func applyEdits(p *idlm.Program, r *core.Rand, n int) []c20Edit {
 			nf.Type = nt
 			replaceField(s, fl, &nf)
 			touched[key] = true
+			touched["edited/"+f.Path+"/"+s.Name] = true
 			out = append(out, c20Edit{fmt.Sprintf("change type of %s.%s from %s to %s", s.Name, fl.Name, thriftName(fl.Type), thriftName(nt)), []diag{{f.Path, "field-type-changed", fl.Name + "," + s.Name}}})
 		case op == 5 && len(structs) > 0: // compatible: add an optional field
 			s := structs[r.Intn(len(structs))]
@@ -278,7 +281,7 @@ func applyEdits(p *idlm.Program, r *core.Rand, n int) []c20Edit {
 			out = append(out, c20Edit{"reorder definitions and fields of " + f.Path, nil})
 		case op == 9 && len(structs) > 0: // remove an unreferenced struct: not a documented breaking change
 			s := structs[r.Intn(len(structs))]
-			if referenced(p, s) || touched[f.Path+"/"+s.Name] {
+			if referenced(p, s) || touched[f.Path+"/"+s.Name] || touched["edited/"+f.Path+"/"+s.Name] {
 				continue
 			}
 			constUses := false
